@@ -63,10 +63,20 @@ def apply_op(h, o):
         s = o["s"]
         s = (np.array(nums(s), dtype=float) if o.get("np") else nums(s)) if isinstance(s, list) else num(s)
         h.scale_histogram(s)
-    elif k == "set_err":
-        h.set_error(nums(o["l"]))
-    elif k == "set_sys":
-        h.set_systematic_error(nums(o["l"]))
+    elif k in ("set_err", "set_sys"):
+        # how the caller hands the list over: plain floats, Python ints (integral values only), or a numpy array that the caller
+        # goes on using (overwritten in place right after the call) - the histogram must hold its own float copy in every case
+        l = nums(o["l"])
+        how = o.get("how")
+        if how == "int" and all(isinstance(x, float) and x == x and x == int(x) for x in l):
+            l = [int(x) for x in l]
+        elif how == "intarray" and all(isinstance(x, float) and x == x and x == int(x) for x in l):
+            l = np.array([int(x) for x in l])
+        elif how == "array":
+            l = np.array(l, dtype=float)
+        (h.set_error if k == "set_err" else h.set_systematic_error)(l)
+        if isinstance(l, np.ndarray):
+            l[...] = -77
     elif k == "stat_err":
         h.statistical_error()
     elif k == "density":
@@ -169,6 +179,10 @@ def run_impl(case, workdir=None):
         for step, o in enumerate(case["ops"]):
             try:
                 apply_op(h, o)
+                pk = case.get("peek")
+                if pk is True or (isinstance(pk, list) and step in pk):
+                    # the caller looks at the geometry after this operation (pure accessors): after every one, or after the listed steps
+                    h.bin_centers(), h.bin_width(), h.bin_bounds_left(), h.bin_bounds_right()
                 if early_write_applies(wr0) and wr0["early_at"] == step:
                     out["early_write_exc"] = early_write(h, wr0, shared_labels, workdir)
             except Exception as e:
